@@ -131,7 +131,7 @@ def run(ctx):
     if not ung:
         raise Inconclusive('ungrouped filter closure of get_transactions not found')
     ungr = [x for x in ung[1] if x[2].startswith('range[')]
-    ctx.floor('C13.r2', 'block-range comparisons in get_transactions (grouped)', len(grouped), 2)
+    ctx.ob('C13.r2', GT, 'the grouped branch of get_transactions applies both block-range comparisons', len(grouped) >= 2, found=len(grouped))
     ctx.ob('C13.r2', GT, 'grouped and ungrouped branches apply the same block-range filter', grouped == ungr, grouped=grouped, ungrouped=ungr)
     # block-range semantics [r0, r1): Lt r0 / Ge r1 everywhere
     for nm, sig in ((GC, a[1]), (GCC, b[1]), (GT, grouped)):
